@@ -130,7 +130,9 @@ instance (q : Request) (pre post : Regs) : Decidable (C01 q pre post) := by
 /-- C02 (observable part): block registers hold the datasheet encoding, no reserved bit set -/
 def C02 (q : Request) (pre post : Regs) : Prop :=
   (∀ a ∈ q.block, post a = DS.Request.spec q pre a) ∧
-  (∀ a ∈ q.block, post a &&& ~~~DS.definedMask a = 0#8)
+  (∀ a ∈ q.block, post a &&& ~~~DS.definedMask a = 0#8) ∧
+  -- "leaves all other ... registers as they were"
+  (∀ a, a < 128 → a ∉ q.block → post a = pre a)
 
 instance (q : Request) (pre post : Regs) : Decidable (C02 q pre post) := by
   unfold C02; infer_instance
@@ -217,8 +219,12 @@ instance (block : List Nat) (tgt pre : Regs) (ws : List W) : Decidable (C08W blo
   unfold C08W; infer_instance
 
 /-- C08 for one `write()`: `accs` is the decoded journal, `pre` the device before the call -/
+def isPin : Request → Bool | .pin _ => true | _ => false
+
 def C08 (q : Request) (pre : Regs) (accs : List Acc) : Prop :=
-  hasRead accs = false ∧ C08W q.block (DS.Request.spec q pre) pre (okWrites accs)
+  hasRead accs = false ∧ C08W q.block (DS.Request.spec q pre) pre (okWrites accs) ∧
+  -- re-applying the configuration the device holds: no bus traffic at all (pin mapping excepted)
+  (isPin q = false → (∀ a ∈ q.block, DS.Request.spec q pre a = pre a) → accs = [])
 
 instance (q : Request) (pre : Regs) (accs : List Acc) : Decidable (C08 q pre accs) := by
   unfold C08; infer_instance
@@ -380,7 +386,9 @@ def C10 (pre post : Regs) (posD negD : List Byte) (accs : List Acc) (o : Outcome
                       - accel12 (negD.getD (2 * i) 0) (negD.getD (2 * i + 1) 0)
    (o = .ok "" ↔ (d 0 > DS.ST_MIN_X ∧ d 1 > DS.ST_MIN_Y ∧ d 2 > DS.ST_MIN_Z)) ∧
    (o = .ok "" ∨ o = .err .selfTest)) ∧
-  (∀ a, a < 128 → post a = pre a)
+  -- every register as before; SELF_TEST itself is left idle (it IS as before unless an earlier
+  -- test was cut by a bus error with the excitation still applied)
+  (∀ a, a < 128 → a ≠ 0x7D → post a = pre a) ∧ post 0x7D = 0#8
 
 instance (pre post : Regs) (posD negD : List Byte) (accs : List Acc) (o : Outcome) :
     Decidable (C10 pre post posD negD accs o) := by
